@@ -60,12 +60,16 @@ def pipelineSearch (shards : List RShard) (q : Q) : List (Nat × Nat) :=
     | none => []
     | some rs => (selected ctx rs.shard (expand (shardSimplify rs.shard sel.2))).map fun j => (i, j)
 
-def failKeySel (_shards : List RShard) (q : Q) : String :=
-  -- the known class: the first filter child is a single-entry BranchesRepos whose branch is "HEAD" or ""
+/-- `HEAD` names the repository's first branch and only that one -/
+def headFirstB (r : Repo) : Bool := r.branches.head? == some HEAD && !(r.branches.drop 1).contains HEAD
+
+def failKeySel (shards : List RShard) (q : Q) : String :=
+  -- the known class: the first filter child is a single-entry BranchesRepos for the branch "HEAD", and some listed
+  -- repository does not have HEAD as its first and only so-named branch (C18_union_partial's hypothesis fails)
   let cs := match q with | .and cs => cs | q => [q]
   match firstFilter cs with
   | some (_, .branchesRepos [br], _) =>
-    if br.1 == HEAD then "branchesrepos-head-rewrite"
+    if br.1 == HEAD && shards.any (fun rs => rs.listed.any fun r => !headFirstB r) then "branchesrepos-head-rewrite"
     else if br.1.isEmpty then "branchesrepos-empty-branch-rewrite" else "select-differs"
   | _ => if hasEmptyBranch q then "branch-empty-pattern" else "select-differs"
 
